@@ -25,6 +25,9 @@ func c19Scenarios(tier string) []e3Scenario {
 	var sets [][]int
 	for i := range q {
 		for j := i; j < len(q); j++ {
+			if tier != "thorough" && (i == 6 || j == 6 || i == 3 || j == 3) && i != j {
+				continue // quick: the nested-dispatch and 404 requests only against themselves
+			}
 			sets = append(sets, []int{i, j})
 		}
 	}
